@@ -611,9 +611,10 @@ ENGINES.append(dict(name="fungible-lab", path="checks/c09_fungible.cpp", serves_
                     kind_free_text="compile-time trait matrix over all ordered type pairs + wire-compatibility runs for every true pair"))
 
 # ----------------------------------------------------------------------------------------------- C19
-c19 = B("c19", "checks/c19_threads.cpp", "gcc")
-c19_tsan = B("c19_tsan", "checks/c19_threads.cpp", "tsan")
-c19_asan = B("c19_asan", "checks/c19_threads.cpp", "asan")
+WRAP_C19 = ["-Wl,--wrap=read,--wrap=write,--wrap=close,--wrap=signal,--wrap=sigaction"]
+c19 = B("c19", "checks/c19_threads.cpp", "gcc", ldflags=WRAP_C19)
+c19_tsan = B("c19_tsan", "checks/c19_threads.cpp", "tsan", ldflags=WRAP_C19)
+c19_asan = B("c19_asan", "checks/c19_threads.cpp", "asan", ldflags=WRAP_C19)
 
 
 def jobs_c19(tier):
